@@ -188,7 +188,14 @@ def bw_with_capacity(ex, args, callee):
     return new_bufwriter(args[0], Cell(args[1], 'bufwriter-inner'))
 
 
+@stub('BufWriter::new')
+def bw_new(ex, args, callee):
+    # std's DEFAULT_BUF_SIZE
+    return new_bufwriter(mk_int(8192, 'usize'), Cell(args[0], 'bufwriter-inner'))
+
+
 def install(ex: Explorer):
+    ex.stubs['BufWriter::new'] = bw_new
     ex.natives['BufWriter'] = {
         'Write::write': bw_write,
         'Write::flush': bw_flush,
